@@ -118,3 +118,45 @@ pub async fn test_field_object_merge2() {
         })
     );
 }
+
+#[tokio::test]
+pub async fn test_field_object_merge_null_occurrence() {
+    struct MyObject;
+
+    #[Object]
+    impl MyObject {
+        async fn a(&self) -> i32 {
+            1
+        }
+
+        async fn fail(&self) -> Result<i32> {
+            Err("boom".into())
+        }
+    }
+
+    struct Query;
+
+    #[Object]
+    impl Query {
+        async fn obj(&self) -> Option<MyObject> {
+            Some(MyObject)
+        }
+
+        async fn objs(&self) -> Vec<Option<MyObject>> {
+            vec![Some(MyObject), Some(MyObject)]
+        }
+    }
+
+    let schema = Schema::new(Query, EmptyMutation, EmptySubscription);
+
+    // the error of the later occurrence nulls `obj`: the earlier partial object must not survive
+    for query in ["{ obj { a } obj { fail } }", "{ obj { fail } obj { a } }"] {
+        let resp = schema.execute(query).await;
+        assert_eq!(resp.data, value!({ "obj": null }));
+        assert_eq!(resp.errors.len(), 1);
+    }
+
+    let resp = schema.execute("{ objs { a } objs { fail } }").await;
+    assert_eq!(resp.data, value!({ "objs": [null, null] }));
+    assert_eq!(resp.errors.len(), 2);
+}
